@@ -149,9 +149,33 @@ fn nudge(x: f32, rng: &mut StdRng) -> f32 {
     }
 }
 
+/// All 48 signed axis permutations: the 24 rotations and their 24 mirror images (determinant -1), which are
+/// axis-aligned but NOT rotations and must be stored as nine floats.
+pub fn signed_permutations() -> Vec<Matrix3> {
+    let mut out = basic_rotations();
+    for m in basic_rotations() {
+        out.push(Matrix3::new(m.x, m.y, Vector3::new(-m.z.x, -m.z.y, -m.z.z)));
+    }
+    out
+}
+
 pub fn matrix_any(rng: &mut StdRng) -> Matrix3 {
     let basics = basic_rotations();
-    match rng.gen_range(0..6) {
+    match rng.gen_range(0..8) {
+        6 => {
+            let all = signed_permutations();
+            all[rng.gen_range(24..48)]
+        }
+        7 => {
+            // axis-aligned but degenerate: a zero row, a repeated axis
+            let all = signed_permutations();
+            let m = all[rng.gen_range(0..48)];
+            match rng.gen_range(0..3) {
+                0 => Matrix3::new(m.x, m.y, Vector3::new(0.0, 0.0, 0.0)),
+                1 => Matrix3::new(m.x, m.x, m.z),
+                _ => Matrix3::new(m.y, m.x, m.z),
+            }
+        }
         0 | 1 => basics[rng.gen_range(0..basics.len())],
         2 => {
             let m = basics[rng.gen_range(0..basics.len())];
